@@ -7,6 +7,7 @@ CONSTANTS
   Weights = {1, 3}
   Depth = 3
   Emit = TRUE
+  FewVals = FALSE
 INVARIANTS Conservation NonNegative UnitIntegral Leaf
 PROPERTY PeriodicAcceptsAll
 CHECK_DEADLOCK FALSE
